@@ -14,7 +14,7 @@ import (
 
 // Ty is a type of the family's grammar.
 type Ty struct {
-	Kind  string // int32 float64 string bool | ptr slice array map struct func iface named namedm
+	Kind  string // int32 float64 string bool | ptr slice array map struct func iface named namedm namedv
 	Elems []*Ty  // ptr/slice/array/named/namedm: [elem]; map: [key, elem]; struct: [a, b]; func: [param, result]
 	Depth int
 }
@@ -22,7 +22,7 @@ type Ty struct {
 var tyBases = []*Ty{{Kind: "int32"}, {Kind: "float64"}, {Kind: "string"}, {Kind: "bool"}}
 
 func (t *Ty) under() *Ty {
-	for t.Kind == "named" || t.Kind == "namedm" {
+	for t.Kind == "named" || t.Kind == "namedm" || t.Kind == "namedv" {
 		t = t.Elems[0]
 	}
 	return t
@@ -62,8 +62,39 @@ func (t *Ty) Shape() string {
 		return "named(" + t.Elems[0].Shape() + ")"
 	case "namedm":
 		return "namedm(" + t.Elems[0].Shape() + ")"
+	case "namedv":
+		return "namedv(" + t.Elems[0].Shape() + ")"
 	}
 	return t.Kind
+}
+
+// Outer is the outermost constructor (for defined types with the constructor underneath): the
+// coarse defect class used in violation keys, stable across depth bounds.
+func (t *Ty) Outer() string {
+	switch t.Kind {
+	case "named", "namedm", "namedv":
+		return t.Kind + "(" + t.Elems[0].Outer() + ")"
+	case "int32", "float64", "string", "bool":
+		return "basic"
+	}
+	for _, e := range t.Elems {
+		if e.hasKind("namedv") {
+			return t.Kind + "<namedv inside>"
+		}
+	}
+	return t.Kind
+}
+
+func (t *Ty) hasKind(k string) bool {
+	if t.Kind == k {
+		return true
+	}
+	for _, e := range t.Elems {
+		if e.hasKind(k) {
+			return true
+		}
+	}
+	return false
 }
 
 // Skeleton is the shape with the four basic types written as B: the defect class of a shape.
@@ -90,20 +121,38 @@ func mk(kind string, elems ...*Ty) *Ty {
 	return &Ty{Kind: kind, Elems: elems, Depth: d + 1}
 }
 
+func onlyInt32(t *Ty) bool {
+	if len(t.Elems) == 0 {
+		return t.Kind == "int32"
+	}
+	for _, e := range t.Elems {
+		if !onlyInt32(e) {
+			return false
+		}
+	}
+	return true
+}
+
 // TypesUpTo enumerates the grammar. Depth 1 is complete. From depth 2 on the unary constructors
 // are applied to every type of the previous depth, and the binary constructors (map, struct,
-// func) get every type of the previous depth in one position and each representative
-// (int32, string) in the other: the stated cap that keeps depth 3 at a few thousand types.
-func TypesUpTo(depth int) []*Ty {
+// func) get every type of the previous depth in one position and each representative (reps:
+// int32, optionally string) in the other: the stated cap that keeps depth 3 at a few thousand
+// types. A method with a pointer receiver (namedm, the form Wa's own `func T.M()` syntax
+// declares) is added wherever Go allows a receiver; a value receiver (namedv) on the basic types
+// and on the depth-1 types over int32.
+func TypesUpTo(depth int, nreps int) []*Ty {
 	all := append([]*Ty{}, tyBases...)
 	prev := append([]*Ty{}, tyBases...) // types of exactly the previous depth
-	reps := []*Ty{tyBases[0], tyBases[2]}
+	reps := []*Ty{tyBases[0], tyBases[2]}[:nreps]
 	for d := 1; d <= depth; d++ {
 		var cur []*Ty
 		for _, e := range prev {
 			cur = append(cur, mk("ptr", e), mk("slice", e), mk("array", e), mk("named", e))
 			if validReceiverBase(e) {
 				cur = append(cur, mk("namedm", e))
+				if d == 1 || (d == 2 && onlyInt32(e)) {
+					cur = append(cur, mk("namedv", e))
+				}
 			}
 		}
 		if d == 1 {
@@ -132,25 +181,76 @@ func TypesUpTo(depth int) []*Ty {
 // TypeContexts are the nine placements.
 var TypeContexts = []string{"global", "local", "param", "result", "multi-result", "field", "map-value", "closure", "iface-box"}
 
-// TypeItem is one (type, context) program fragment.
+// TypeItem is one (type, context) program fragment, rendered in Go syntax (for the Go oracle)
+// and in native .wa syntax (for the compiler under test) from the same template.
 type TypeItem struct {
 	Index   int
 	Shape   string
 	Skel    string
+	Outer   string
 	Context string
 	Depth   int
-	Decls   string // package-level declarations (unique names)
-	Body    string // statements of the case function
+	Decls   string // Go: package-level declarations (unique names)
+	Body    string // Go: statements of the case function
+	WaDecls string // .wa: the same declarations
+	WaBody  string // .wa: the same statements
 }
 
-type tyRender struct {
+// syn writes one of the two concrete syntaxes.
+type syn struct {
+	wa     bool
 	prefix string
 	n      int
 	decls  strings.Builder
 }
 
+// vdecl: a variable declaration (local or, with global=true, at package level).
+func (r *syn) vdecl(global bool, name, typ string) string {
+	if !r.wa {
+		return "var " + name + " " + typ
+	}
+	if global {
+		return "global " + name + ": " + typ
+	}
+	return name + ": " + typ
+}
+
+// vinit: a local variable declaration with an initial value.
+func (r *syn) vinit(name, typ, val string) string {
+	if !r.wa {
+		return "var " + name + " " + typ + " = " + val
+	}
+	return name + ": " + typ + " = " + val
+}
+
+// field / param: "name T" or "name: T"
+func (r *syn) nt(name, typ string) string {
+	if r.wa {
+		return name + ": " + typ
+	}
+	return name + " " + typ
+}
+
+// res: result part of a signature
+func (r *syn) res(typ string) string {
+	if typ == "" {
+		return ""
+	}
+	if r.wa {
+		return " => " + typ
+	}
+	return " " + typ
+}
+
+func (r *syn) typedecl(name, under string) string {
+	if r.wa {
+		return "type " + name + " :" + under
+	}
+	return "type " + name + " " + under
+}
+
 // expr renders the type expression, declaring defined types on the way.
-func (r *tyRender) expr(t *Ty) string {
+func (r *syn) expr(t *Ty) string {
 	switch t.Kind {
 	case "ptr":
 		return "*" + r.expr(t.Elems[0])
@@ -161,25 +261,31 @@ func (r *tyRender) expr(t *Ty) string {
 	case "map":
 		return "map[" + r.expr(t.Elems[0]) + "]" + r.expr(t.Elems[1])
 	case "struct":
-		return "struct {\n\ta " + r.expr(t.Elems[0]) + "\n\tb " + r.expr(t.Elems[1]) + "\n}"
+		return "struct {\n\t" + r.nt("a", r.expr(t.Elems[0])) + "\n\t" + r.nt("b", r.expr(t.Elems[1])) + "\n}"
 	case "func":
-		return "func(" + r.expr(t.Elems[0]) + ") " + r.expr(t.Elems[1])
+		return "func(" + r.expr(t.Elems[0]) + ")" + r.res(r.expr(t.Elems[1]))
 	case "iface":
 		return "interface{}"
-	case "named", "namedm":
+	case "named", "namedm", "namedv":
 		u := r.expr(t.Elems[0])
 		r.n++
 		name := fmt.Sprintf("%sN%d", r.prefix, r.n)
-		fmt.Fprintf(&r.decls, "type %s %s\n\n", name, u)
-		if t.Kind == "namedm" {
-			fmt.Fprintf(&r.decls, "func (x %s) Get() int32 { return 7 }\n\n", name)
+		r.decls.WriteString(r.typedecl(name, u) + "\n\n")
+		switch {
+		case t.Kind == "namedm" && r.wa:
+			// Wa's own method syntax: the receiver is `this: *T`
+			fmt.Fprintf(&r.decls, "func %s.Get() => int32 { return 7 }\n\n", name)
+		case t.Kind == "namedm":
+			fmt.Fprintf(&r.decls, "func (this *%s) Get() int32 { return 7 }\n\n", name)
+		case t.Kind == "namedv":
+			fmt.Fprintf(&r.decls, "func (%s) Get()%s { return 7 }\n\n", r.nt("x", name), r.res("int32"))
 		}
 		return name
 	}
 	return t.Kind
 }
 
-// touch: statements using variable v (addressable, of type t, spelled te).
+// touch: statements using variable v (addressable, of type t). The same text in both syntaxes.
 func touch(t *Ty, v string) string {
 	var b strings.Builder
 	b.WriteString("\t{\n")
@@ -201,70 +307,74 @@ func touch(t *Ty, v string) string {
 	case "bool":
 		fmt.Fprintf(&b, "\t\tprintln(!%s)\n", v)
 	}
-	if t.Kind == "namedm" {
+	if t.Kind == "namedm" || t.Kind == "namedv" {
 		fmt.Fprintf(&b, "\t\tprintln(%s.Get())\n", v)
 	}
 	b.WriteString("\t}\n")
 	return b.String()
 }
 
-// MakeTypeItem builds the fragment for one type in one context.
-func MakeTypeItem(index int, t *Ty, ctx string) TypeItem {
-	p := fmt.Sprintf("T%d", index)
-	r := &tyRender{prefix: p}
+func renderTypeItem(r *syn, p string, t *Ty, ctx string) (decls, body string) {
 	te := r.expr(t)
-	it := TypeItem{Index: index, Shape: t.Shape(), Skel: t.Skeleton(), Context: ctx, Depth: t.Depth}
 	var d, b strings.Builder
 	d.WriteString(r.decls.String())
 	switch ctx {
 	case "global":
-		fmt.Fprintf(&d, "var %sg %s\n\n", p, te)
+		d.WriteString(r.vdecl(true, p+"g", te) + "\n\n")
 		b.WriteString(touch(t, p+"g"))
 	case "local":
-		fmt.Fprintf(&b, "\tvar v %s\n", te)
+		b.WriteString("\t" + r.vdecl(false, "v", te) + "\n")
 		b.WriteString(touch(t, "v"))
 	case "param":
-		fmt.Fprintf(&d, "func %sp(a %s, n int32) int32 {\n%s\treturn n + 1\n}\n\n", p, te, touch(t, "a"))
-		fmt.Fprintf(&b, "\tvar z %s\n\tprintln(%sp(z, 3))\n", te, p)
+		fmt.Fprintf(&d, "func %sp(%s, %s)%s {\n%s\treturn n + 1\n}\n\n", p, r.nt("a", te), r.nt("n", "int32"), r.res("int32"), touch(t, "a"))
+		fmt.Fprintf(&b, "\t%s\n\tprintln(%sp(z, 3))\n", r.vdecl(false, "z", te), p)
 	case "result":
-		fmt.Fprintf(&d, "func %sr() %s {\n\tvar z %s\n\treturn z\n}\n\n", p, te, te)
+		fmt.Fprintf(&d, "func %sr()%s {\n\t%s\n\treturn z\n}\n\n", p, r.res(te), r.vdecl(false, "z", te))
 		fmt.Fprintf(&b, "\tv := %sr()\n", p)
 		b.WriteString(touch(t, "v"))
 	case "multi-result":
-		fmt.Fprintf(&d, "func %sm() (%s, int32, %s) {\n\tvar x %s\n\tvar y %s\n\treturn x, 5, y\n}\n\n", p, te, te, te, te)
+		fmt.Fprintf(&d, "func %sm()%s {\n\t%s\n\t%s\n\treturn x, 5, y\n}\n\n", p, r.res("("+te+", int32, "+te+")"), r.vdecl(false, "x", te), r.vdecl(false, "y", te))
 		fmt.Fprintf(&b, "\tv, n, v2 := %sm()\n\tprintln(n)\n", p)
 		b.WriteString(touch(t, "v"))
 		b.WriteString(touch(t, "v2"))
 	case "field":
-		fmt.Fprintf(&d, "type %sS struct {\n\tn int32\n\tf %s\n\tm int32\n}\n\n", p, te)
-		fmt.Fprintf(&b, "\tvar s %sS\n\ts.n = 1\n\tt := s\n\ts = t\n\tprintln(s.n, t.m)\n", p)
+		d.WriteString(r.typedecl(p+"S", "struct {\n\t"+r.nt("n", "int32")+"\n\t"+r.nt("f", te)+"\n\t"+r.nt("m", "int32")+"\n}") + "\n\n")
+		fmt.Fprintf(&b, "\t%s\n\ts.n = 1\n\tt := s\n\ts = t\n\tprintln(s.n, t.m)\n", r.vdecl(false, "s", p+"S"))
 		if t.Comparable() {
 			b.WriteString("\tprintln(s == t)\n")
 		}
 		b.WriteString("\tv := s.f\n\ts.f = v\n")
 		b.WriteString(touch(t, "v"))
 	case "map-value":
-		fmt.Fprintf(&b, "\tm := make(map[int32]%s)\n\tvar z %s\n\tm[1] = z\n\tv := m[1]\n\tv2, ok := m[2]\n\tprintln(ok, len(m))\n", te, te)
+		fmt.Fprintf(&b, "\tm := make(map[int32]%s)\n\t%s\n\tm[1] = z\n\tv := m[1]\n\tv2, ok := m[2]\n\tprintln(ok, len(m))\n", te, r.vdecl(false, "z", te))
 		b.WriteString(touch(t, "v"))
 		b.WriteString(touch(t, "v2"))
 	case "closure":
-		fmt.Fprintf(&b, "\tvar v %s\n\tf := func() %s { return v }\n\tg := func(n %s) { v = n }\n\tu := f()\n\tg(u)\n", te, te, te)
+		fmt.Fprintf(&b, "\t%s\n\tf := func()%s { return v }\n\tg := func(%s) { v = n }\n\tu := f()\n\tg(u)\n", r.vdecl(false, "v", te), r.res(te), r.nt("n", te))
 		b.WriteString(touch(t, "v"))
 	case "iface-box":
-		fmt.Fprintf(&b, "\tvar v %s\n\tvar i interface{} = v\n\tu := i.(%s)\n\tu2, ok := i.(%s)\n\tprintln(ok)\n\tv = u2\n", te, te, te)
+		fmt.Fprintf(&b, "\t%s\n\t%s\n\tu := i.(%s)\n\tu2, ok := i.(%s)\n\tprintln(ok)\n\tv = u2\n", r.vdecl(false, "v", te), r.vinit("i", "interface{}", "v"), te, te)
 		b.WriteString(touch(t, "u"))
 		b.WriteString(touch(t, "v"))
 	default:
 		panic("unknown context " + ctx)
 	}
-	it.Decls, it.Body = d.String(), b.String()
+	return d.String(), b.String()
+}
+
+// MakeTypeItem builds the fragment for one type in one context.
+func MakeTypeItem(index int, t *Ty, ctx string) TypeItem {
+	p := fmt.Sprintf("T%d", index)
+	it := TypeItem{Index: index, Shape: t.Shape(), Skel: t.Skeleton(), Outer: t.Outer(), Context: ctx, Depth: t.Depth}
+	it.Decls, it.Body = renderTypeItem(&syn{prefix: p}, p, t, ctx)
+	it.WaDecls, it.WaBody = renderTypeItem(&syn{prefix: p, wa: true}, p, t, ctx)
 	return it
 }
 
 // TypeItems enumerates every (type, context) pair of the grammar up to the depth, simplest first.
-func TypeItems(depth int) []TypeItem {
+func TypeItems(depth int, nreps int) []TypeItem {
 	var out []TypeItem
-	for _, t := range TypesUpTo(depth) {
+	for _, t := range TypesUpTo(depth, nreps) {
 		for _, c := range TypeContexts {
 			out = append(out, MakeTypeItem(len(out), t, c))
 		}
@@ -272,16 +382,26 @@ func TypeItems(depth int) []TypeItem {
 	return out
 }
 
-// RenderTypeProgram renders any subset of items as one Go/WaGo source with functions
-// Case0..Case{n-1}.
-func RenderTypeProgram(items []TypeItem) string {
+// RenderTypeProgram renders any subset of items as one source with functions Case0..Case{n-1}:
+// Go syntax (wa=false) or .wa syntax with `#wa:export case_<i>` directives (wa=true).
+func RenderTypeProgram(items []TypeItem, wa bool) string {
 	var b strings.Builder
-	b.WriteString("package main\n\n")
+	if !wa {
+		b.WriteString("package main\n\n")
+	}
 	for _, it := range items {
-		b.WriteString(it.Decls)
+		if wa {
+			b.WriteString(it.WaDecls)
+		} else {
+			b.WriteString(it.Decls)
+		}
 	}
 	for i, it := range items {
-		fmt.Fprintf(&b, "func Case%d() {\n%s}\n\n", i, it.Body)
+		if wa {
+			fmt.Fprintf(&b, "#wa:export case_%d\nfunc Case%d() {\n%s}\n\n", i, i, it.WaBody)
+		} else {
+			fmt.Fprintf(&b, "func Case%d() {\n%s}\n\n", i, it.Body)
+		}
 	}
 	b.WriteString("func main() {\n")
 	for i := range items {
